@@ -92,6 +92,12 @@ def observe_misuse(ic: Any, cell: dict) -> Tuple[str, str]:
                 params = "result=1"
             elif m == "param_OLD":
                 params = "OLD=1"
+            elif m in ("param_result_kwonly", "param_OLD_kwonly"):
+                params = "x=1, *, {}=1".format(m.split("_")[1])
+            elif m in ("param_result_posonly", "param_OLD_posonly"):
+                params = "{}=1, /, x=1".format(m.split("_")[1])
+            elif m in ("kw_result", "kw_OLD"):
+                params, call_args = "x=1, **kwargs", "{}=1".format(m.split("_")[1])
             elif m.startswith("error_"):
                 err = {"error_int": "3", "error_str": "'oops'", "error_nonexc_class": "int",
                        "error_callable_object": "functools.partial(ValueError, 'x')"}[m]
@@ -114,8 +120,11 @@ def observe_misuse(ic: Any, cell: dict) -> Tuple[str, str]:
             eval(call.replace("{A}", call_args), ns)
             return ("never", "")
         if d == "invariant":
-            if m == "inv_extra_param":
-                expr = "icontract.invariant(lambda self, other: True)"
+            inv_forms = {"inv_extra_param": "lambda self, other: True", "inv_varargs": "lambda self, *args: True",
+                         "inv_varkw": "lambda self, **kwargs: True", "inv_only_varargs": "lambda *args: True",
+                         "inv_kwonly_param": "lambda self, *, k: True", "inv_defaulted_param": "lambda self, other=1: True"}
+            if m in inv_forms:
+                expr = "icontract.invariant({})".format(inv_forms[m])
             elif m == "inv_coroutine":
                 ns["acond"] = _make_async_cond()
                 expr = "icontract.invariant(acond)"
@@ -238,11 +247,14 @@ def check_ctor(res: CheckResult, ic: Any) -> None:
     for ex in cells:
         cell = ex["cell"]
         args = (5,) * cell["nargs"]
+        kwargs = {}  # type: Dict[str, Any]
+        if cell["style"] == "kw":
+            args, kwargs = (), {"x": 5}
         outcomes = []
         for contracted in (False, True):
             cls = _ctor_classes(ic, cell, contracted)
             try:
-                cls(*args)
+                cls(*args, **kwargs)
                 outcomes.append(True)
             except TypeError:
                 outcomes.append(False)
